@@ -38,6 +38,14 @@ impl<const BITS: usize, const LIMBS: usize> Uint<BITS, LIMBS> {
 
         // Compute the sum and conditionally subtract modulus once.
         let (mut result, overflow) = lhs.overflowing_add(rhs);
+        #[cfg(feature = "recmo_uint_verif")]
+        crate::verif_hooks::hit(if overflow {
+            100
+        } else if result >= modulus {
+            101
+        } else {
+            102
+        });
         if overflow || result >= modulus {
             result -= modulus;
         }
@@ -67,6 +75,8 @@ impl<const BITS: usize, const LIMBS: usize> Uint<BITS, LIMBS> {
             core::slice::from_raw_parts_mut(product.as_mut_ptr().cast::<u64>(), product_len)
         };
 
+        #[cfg(feature = "recmo_uint_verif")]
+        crate::verif_hooks::hit(103);
         // Compute full product.
         let overflow = algorithms::addmul(product, self.as_limbs(), rhs.as_limbs());
         debug_assert!(!overflow);
@@ -93,6 +103,8 @@ impl<const BITS: usize, const LIMBS: usize> Uint<BITS, LIMBS> {
         while exp > Self::ZERO {
             // Multiply by base
             if exp.limbs[0] & 1 == 1 {
+                #[cfg(feature = "recmo_uint_verif")]
+                crate::verif_hooks::hit(104);
                 result = result.mul_mod(self, modulus);
             }
 
